@@ -6,12 +6,36 @@ then `bv_decide` (or `omega` for the frame condition) on what remains. -/
 namespace WaVerif.C02
 open WaVerif WaVerif.X64
 
+/-- `b2i` without an `if` (whose `Decidable` instance `simp` cannot rewrite) -/
+theorem b2i_eq_ofBool (b : Bool) : Wasm.b2i b = (BitVec.ofBool b).setWidth 32 := by
+  cases b <;> rfl
+
+theorem rotl32_congr (x : BitVec 32) {a b : Nat} (h : a % 32 = b % 32) : x.rotateLeft a = x.rotateLeft b := by
+  rw [← BitVec.rotateLeft_mod_eq_rotateLeft (r := a), ← BitVec.rotateLeft_mod_eq_rotateLeft (r := b), h]
+
+theorem rotr32_congr (x : BitVec 32) {a b : Nat} (h : a % 32 = b % 32) : x.rotateRight a = x.rotateRight b := by
+  rw [← BitVec.rotateRight_mod_eq_rotateRight (r := a), ← BitVec.rotateRight_mod_eq_rotateRight (r := b), h]
+
+/-- a logical right shift of a zero-extended 32-bit value, seen at 32 bits -/
+theorem ushr_zext32 (y : BitVec 32) (n : Nat) : BitVec.setWidth 32 ((BitVec.setWidth 64 y) >>> n) = y >>> n := by
+  apply BitVec.eq_of_getLsbD_eq
+  intro i hi
+  simp only [BitVec.getLsbD_setWidth, BitVec.getLsbD_ushiftRight]
+  by_cases h : n + i < 32
+  · simp [hi, h]
+    intro h2; omega
+  · have : y.getLsbD (n + i) = false := BitVec.getLsbD_of_ge _ _ (by omega)
+    simp [hi, this]
+
+theorem intMin32_lit : BitVec.intMin 32 = 2147483648#32 := by decide
+theorem intMin64_lit : BitVec.intMin 64 = 9223372036854775808#64 := by decide
+
 macro "x64_simp" : tactic => `(tactic|
   simp [BinRow32, BinRow64, BinRow32ExceptMinInt, BinRow64ExceptMinInt, RelRow32, RelRow64, EqzRow32, EqzRow64, UnRow32, UnRow64,
     WrapRow, ExtSRow, ExtURow, SelectRow32, SelectRow64, Illformed,
     Outcome32, Outcome64, Preserved, lo32, X64.run, X64.step, sameWidth, width, X64.read, write, writeReg, writeSlot, setSlot, setReg, getReg,
     trunc, aluW, aluN, shW, shN, cntW, ccHolds, subFlags, addFlags, logicFlags,
-    Wasm.binop, Wasm.relop, Wasm.unop, Wasm.b2i, Option.bind, Option.map, divN_zero_hi, idivN_cdq, idivN_cqo])
+    Wasm.binop, Wasm.relop, Wasm.unop, b2i_eq_ofBool, Option.bind, Option.map, divN_zero_hi, idivN_cdq, idivN_cqo, intMin32_lit, intMin64_lit, ushr_zext32])
 
 macro "row_start" : tactic => `(tactic|
   (intro s
@@ -23,6 +47,8 @@ macro "x64_finish" : tactic => `(tactic|
     | done
     | (intro k h1 h2; exact absurd h2 h1)
     | rfl
+    | (apply rotl32_congr; omega)
+    | (apply rotr32_congr; omega)
     | bv_decide
     | (intros; bv_decide)
     | (simp_all; done)
